@@ -23,7 +23,8 @@ RULE = ("connect_coding_graph(k, mask, t) for every order-2 mask x t in 1..4, ra
         "exactly the rows with arcs; ValueError iff the oracle graph is empty, no other exception; mask unchanged (digest + "
         "read-only trap); a sub-mask never yields more arcs; for t >= 2 latter_map_to_accessor(accessor_to_latter_map("
         "connect_valid_graph(mask)), k, threshold=t) is the same graph (all -1 when empty). Non-trivial: trimming removed "
-        "at least one vertex or the call raised; distinct = hash of (k, mask, t, dtype).")
+        "at least one vertex or the call raised; distinct = hash of (k, mask, t, dtype)."
+        ' Also: masks found by hill climbing that need up to 13 pruning sweeps (props/corpus_deep_masks.json), induced cycles of 3^(k-1) out-degree-1 vertices (k = 5..8) next to a small branching core, closed graphs of k+1 vertices at the orders 7..10, and one latter-map object trimmed at thresholds 4, 3, 2 in turn with a digest of the map before and after.')
 
 
 def setup(ctx):
